@@ -8,6 +8,9 @@
    values: z 0|1 | n dec | f bits | d bits | s hex | [ n v* | { n (keyhex v)* | ( n v* | & v | nil | a <any> | r <tree> | y <tree>
    any   : b v | s v | i v | l v | f bits | d bits | B hex | S hex | I n v* | L n v* | [ n a* | { n (keyhex a)*
    tree  : as driver/c01.ml
+     B <idx> <file|net> <val|ptr> <namehex> <decl...> ; <dvalue...>    struct with embedded structs (typeFields)
+   decl  : DL n d*   with d = DF namehex flags(t o l s -) T | DE <v|p> n d*
+   dvalue: VL n x*   with x = VF v | VE n x* | VN
    result lines:  M <idx> ok <hex> <namehex> <left> <value...> | M <idx> ok <hex> derr | M <idx> err | M <idx> panic *)
 
 let take_n f n toks =
@@ -176,6 +179,46 @@ let rec pr_val b (v : gv) : unit =
   | GvRaw (Some t) -> add " r"; pr_tree b t
   | GvDyn (Some t) -> add " y"; pr_tree b t
 
+let rec parse_decls (toks : string list) : dfield list * string list =
+  match toks with
+  | "DL" :: n :: r -> take_n parse_decl (int_of_string n) r
+  | _ -> failwith "decls"
+and parse_decl (toks : string list) : dfield * string list =
+  match toks with
+  | "DF" :: nm :: fl :: r ->
+      let (t, r') = parse_ty r in
+      let has c = String.contains fl c in
+      (DF ({ f_name = bytes_of_hex nm; f_omit = has 'o'; f_list = has 'l'; f_skip = has 's' }, has 't', t), r')
+  | "DE" :: p :: n :: r -> let (ds, r') = take_n parse_decl (int_of_string n) r in (DE (p = "p", ds), r')
+  | _ -> failwith "decl"
+
+let rec parse_dvs (ds : dfield list) (toks : string list) : dv list * string list =
+  match toks with
+  | "VL" :: _ :: r ->
+      let rec go ds r acc = match ds with
+        | [] -> (List.rev acc, r)
+        | d :: dr -> let (x, r') = parse_dv d r in go dr r' (x :: acc) in
+      go ds r []
+  | _ -> failwith "dvs"
+and parse_dv (d : dfield) (toks : string list) : dv * string list =
+  match d, toks with
+  | DF (_, _, t), "VF" :: r -> let (v, r') = parse_tval t r in (VF v, r')
+  | DE (_, _), "VN" :: r -> (VE None, r)
+  | DE (_, ds), "VE" :: _ :: r ->
+      let rec go ds r acc = match ds with
+        | [] -> (List.rev acc, r)
+        | d :: dr -> let (x, r') = parse_dv d r in go dr r' (x :: acc) in
+      let (xs, r') = go ds r [] in (VE (Some xs), r')
+  | _ -> failwith "dv"
+
+let rec pr_dvs b (l : dv list) : unit =
+  Buffer.add_string b " VL "; Buffer.add_string b (string_of_int (List.length l)); List.iter (pr_dv b) l
+and pr_dv b (x : dv) : unit =
+  match x with
+  | VF v -> Buffer.add_string b " VF"; pr_val b v
+  | VE None -> Buffer.add_string b " VN"
+  | VE (Some l) -> Buffer.add_string b " VE "; Buffer.add_string b (string_of_int (List.length l)); List.iter (pr_dv b) l
+
 let fmt_of = function "file" -> File | "net" -> Net | s -> failwith ("fmt " ^ s)
 
 let split_semi toks =
@@ -207,6 +250,26 @@ let () = iter_lines (fun line ->
               | DPanic -> Buffer.add_string b " dpanic"
               | DFuel -> Buffer.add_string b " dfuel"
               | DOut -> Buffer.add_string b " dout");
+             print_endline (Buffer.contents b))
+    | "B" :: idx :: f :: _mode :: name :: rest ->
+        let f = fmt_of f in
+        let (tt, vt) = split_semi rest in
+        let (ds, _) = parse_decls tt in
+        let (vs, _) = parse_dvs ds vt in
+        (match marshal_emb f (bytes_of_hex name) ds vs with
+         | MErr -> Printf.printf "B %s err\n" idx
+         | MPanic -> Printf.printf "B %s panic\n" idx
+         | MOk bs ->
+             let b = Buffer.create 256 in
+             Buffer.add_string b ("B " ^ idx ^ " ok "); hexs b bs;
+             (match unmarshal_emb f ds bs with
+              | EDOk (nm, vs', left) ->
+                  Buffer.add_char b ' '; hexs b nm; Buffer.add_char b ' ';
+                  Buffer.add_string b (string_of_int (List.length left)); pr_dvs b vs'
+              | EDErr -> Buffer.add_string b " derr"
+              | EDPanic -> Buffer.add_string b " dpanic"
+              | EDFuel -> Buffer.add_string b " dfuel"
+              | EDOut -> Buffer.add_string b " dout");
              print_endline (Buffer.contents b))
     | "K" :: idx :: f :: ctx :: name :: rest ->
         let f = fmt_of f in
